@@ -297,6 +297,9 @@ func ConvertString(octetString ...string) ([]string, error) {
 
 	for _, s := range octetString {
 		data := []byte(s)
+		if len(data) < startOfDataIdx+1 {
+			return nil, fmt.Errorf("%s: string is too short to be a ber encoded string: %w", op, ErrInvalidParameter)
+		}
 
 		switch {
 		case
@@ -350,6 +353,9 @@ func readLength(bytes []byte) (length int, read int, err error) {
 		// Accumulate into a 64-bit variable
 		var length64 int64
 		for i := 0; i < lengthBytes; i++ {
+			if read >= len(bytes) {
+				return 0, read, errors.New("long-form length is truncated")
+			}
 			b = bytes[read]
 			read++
 
